@@ -350,22 +350,36 @@ func reuseDecode(r *sim.Rand) {
 		}
 		reuseExperiment("", p.name, p.newCmd, at.up, b1, b2)
 	default:
-		// command streams: one command each, sized by the library itself
+		// command streams of one to three commands, each sized by the library
+		// itself; the first is the type's own command, the others may be any
+		// CID (with a payload, without one in this direction, undefined)
+		stream := func(first []byte) []byte {
+			var out []byte
+			k := 1 + r.Intn(3)
+			for j := 0; j < k; j++ {
+				b := first
+				if j > 0 {
+					b = gen(r.Intn(3))
+					b[0] = byte(r.Intn(12))
+				}
+				c := p.newCmd()
+				if callUnmarshal(c, at.up, b) != nil {
+					continue
+				}
+				n := c.(interface{ Size() int }).Size()
+				if n > len(b) {
+					continue
+				}
+				out = append(out, b[:n]...)
+			}
+			return out
+		}
 		b1[0], b2[0] = at.cid, at.cid
-		c1 := p.newCmd()
-		if callUnmarshal(c1, at.up, b1) != nil {
+		s1, s2 := stream(b1), stream(b2)
+		if len(s1) == 0 || len(s2) == 0 {
 			return
 		}
-		n1 := c1.(interface{ Size() int }).Size()
-		c2 := p.newCmd()
-		if callUnmarshal(c2, at.up, b2) != nil {
-			return
-		}
-		n2 := c2.(interface{ Size() int }).Size()
-		if n1 > len(b1) || n2 > len(b2) {
-			return
-		}
-		reuseExperiment("", p.name, p.newCmds, at.up, b1[:n1], b2[:n2])
+		reuseExperiment("", p.name, p.newCmds, at.up, s1, s2)
 	}
 }
 
